@@ -506,7 +506,19 @@ func runTable(raw json.RawMessage) (interface{}, error) {
 		for _, a := range env.aggs {
 			a.Snapshot()
 		}
-		time.Sleep(time.Millisecond)
+		// the flushed aggregates travel through table.In and the routes: wait until no new series has shown up for a while
+		// (a fixed 1 ms was not enough on a loaded machine: a series was missing from the observation once)
+		lastN, since := -1, time.Now()
+		for deadline := time.Now().Add(3 * time.Second); time.Now().Before(deadline); time.Sleep(2 * time.Millisecond) {
+			mu.Lock()
+			n := len(seen)
+			mu.Unlock()
+			if n != lastN {
+				lastN, since = n, time.Now()
+			} else if time.Since(since) > 40*time.Millisecond {
+				break
+			}
+		}
 		mu.Lock()
 		for k := range seen {
 			aggKeys = append(aggKeys, hx([]byte(k)))
